@@ -463,6 +463,7 @@ Proof.
                 | Some l, _ => map Sd l | _, Some l => map Intf l | _, _ => [] end) in *.
   set (dof' := match dof with None => (1, 0, 0) | Some d => d end).
   assert (Hmain : Inv g (fst (
+      if negb (nodup_doms grids) then (s, OErr ValueErr) else
       if existsb (fun v => Nat.eqb (vname v) name && existsb (dom_eqb (vdom v)) grids) (vars s)
       then (s, OErr KeyErr)
       else let s1 := create_loop g s name dof' grids in
@@ -471,7 +472,8 @@ Proof.
            | inr e => (s1, OErr e)
            | inl s2 => (s2, OCreated ids)
            end))).
-  { destruct (existsb _ (vars s)); [exact HI|]. cbn zeta.
+  { destruct (negb (nodup_doms grids)); [exact HI|].
+    destruct (existsb _ (vars s)); [exact HI|]. cbn zeta.
     destruct (create_loop_Pre g name dof' grids s (Inv_Pre g s HI) Hg) as [HP _].
     destruct HP as [Hc Hl Hk Hd Hso Hn].
     destruct (cluster_Inv g _ Hc Hd Hso Hn) as [s2 [E [HI2 _]]]. rewrite E. exact HI2. }
@@ -1197,23 +1199,29 @@ Proof.
   apply in_map_iff. exists y. split; auto. rewrite E. reflexivity.
 Qed.
 
-Lemma create_keys g s name dof badkey sub intf :
+Lemma nodup_doms_NoDup l : nodup_doms l = true -> NoDup l.
+Proof.
+  induction l as [|d r IH]; cbn; intro H; [constructor|].
+  apply andb_true_iff in H. destruct H as [H1 H2]. constructor; auto.
+  intro Hin. apply negb_true_iff in H1.
+  assert (Ht : existsb (dom_eqb d) r = true).
+  { apply existsb_exists. exists d. split; auto. apply dom_eqb_refl. }
+  congruence.
+Qed.
+
+Lemma create_keys_wf g s name dof badkey sub intf :
   grids_ok (length (sds g)) sub -> grids_ok (length (intfs g)) intf ->
-  nodup_opt sub -> nodup_opt intf ->
   Inv g s -> NoDup (map vkey (vars s)) ->
   NoDup (map vkey (vars (fst (create g s name dof badkey sub intf)))).
 Proof.
-  intros Hs Hi Ns Ni HI Hk. unfold create.
+  intros Hs Hi HI Hk. unfold create.
   destruct badkey; [exact Hk|].
   pose proof (create_grids_ok g sub intf Hs Hi) as Hg.
-  assert (Hndg : NoDup (match sub, intf with
-                        | Some l, _ => map Sd l | _, Some l => map Intf l | _, _ => [] end)).
-  { destruct sub as [l|]; [|destruct intf as [l|]]; cbn in *; try constructor;
-      apply NoDup_map_of_inj; auto; intros a b _ _ E; inversion E; auto. }
   set (grids := match sub, intf with
                 | Some l, _ => map Sd l | _, Some l => map Intf l | _, _ => [] end) in *.
   set (dof' := match dof with None => (1, 0, 0) | Some d => d end).
   assert (Hmain : NoDup (map vkey (vars (fst (
+      if negb (nodup_doms grids) then (s, OErr ValueErr) else
       if existsb (fun v => Nat.eqb (vname v) name && existsb (dom_eqb (vdom v)) grids) (vars s)
       then (s, OErr KeyErr)
       else let s1 := create_loop g s name dof' grids in
@@ -1222,7 +1230,9 @@ Proof.
            | inr e => (s1, OErr e)
            | inl s2 => (s2, OCreated ids)
            end))))).
-  { destruct (existsb _ (vars s)) eqn:Ex; [exact Hk|]. cbn zeta.
+  { destruct (nodup_doms grids) eqn:End; cbn [negb]; [|exact Hk].
+    pose proof (nodup_doms_NoDup grids End) as Hndg.
+    destruct (existsb _ (vars s)) eqn:Ex; [exact Hk|]. cbn zeta.
     destruct (create_loop_Pre g name dof' grids s (Inv_Pre g s HI) Hg)
       as [HP [_ [_ [news [Hv [Hdm Hnm]]]]]].
     destruct HP as [Hc Hl Hks Hd Hso Hn].
@@ -1244,6 +1254,13 @@ Proof.
       congruence. }
   destruct sub as [l1|], intf as [l2|]; try exact Hk; exact Hmain.
 Qed.
+
+Lemma create_keys g s name dof badkey sub intf :
+  grids_ok (length (sds g)) sub -> grids_ok (length (intfs g)) intf ->
+  nodup_opt sub -> nodup_opt intf ->
+  Inv g s -> NoDup (map vkey (vars s)) ->
+  NoDup (map vkey (vars (fst (create g s name dof badkey sub intf)))).
+Proof. intros Hs Hi _ _. apply create_keys_wf; auto. Qed.
 
 Lemma remove_loop_keys g : forall ids s,
   Inv g s -> NoDup (map vkey (vars s)) ->
@@ -1276,6 +1293,27 @@ Qed.
 
 Theorem final_Inv2 g ops : Forall (wf2_op g) ops -> Inv2 g (final g ops).
 Proof. intro H. apply run_Inv2; auto. split; [apply Inv_init|constructor]. Qed.
+
+(* since create_variables rejects a grid listed twice, wf_op alone suffices *)
+Lemma step_Inv2_wf g s o : wf_op g o -> Inv2 g s -> Inv2 g (fst (step g s o)).
+Proof.
+  intros Hw [HI Hk]. split; [apply step_Inv; auto|].
+  destruct o; cbn [step fst]; auto.
+  - destruct Hw as [H1 H2]. apply create_keys_wf; auto.
+  - apply remove_loop_keys; auto.
+  - unfold set_values.
+    destruct (set_loop s (numbers s) (parse s r) values w additive 0 0 (store s))
+      as [[sto de] [e|]]; cbn [fst]; exact Hk.
+Qed.
+
+Lemma run_Inv2_wf g : forall ops s, Forall (wf_op g) ops -> Inv2 g s -> Inv2 g (fst (run g s ops)).
+Proof.
+  induction ops as [|o r IH]; intros s Hw HI; [exact HI|].
+  inversion Hw; subst. rewrite run_cons. apply IH; auto. apply step_Inv2_wf; auto.
+Qed.
+
+Theorem final_Inv2_wf g ops : Forall (wf_op g) ops -> Inv2 g (final g ops).
+Proof. intro H. apply run_Inv2_wf; auto. split; [apply Inv_init|constructor]. Qed.
 
 (* ------------------------------------------------------------------------------------ *)
 (* statements over arbitrary histories *)
